@@ -87,29 +87,73 @@ def apply_unified_diff(root, diff_text):
         with open(full, encoding='utf-8') as f:
             src = f.read().split('\n')
         offset = 0
+
+        def locate(old, start):
+            for delta in sorted(range(-400, 401), key=abs):
+                s_ = start + delta
+                if s_ < 0 or s_ + len(old) > len(src):
+                    continue
+                if src[s_:s_ + len(old)] == old:
+                    return s_
+            return None
+
+        def apply_block(tagged, start):
+            """tagged: [(tag, body)]; returns the delta in line count, or None when the block cannot be placed"""
+            old = [b for t, b in tagged if t in (' ', '-')]
+            new = [b for t, b in tagged if t in (' ', '+')]
+            if not old:
+                return None
+            found = locate(old, start)
+            if found is None:
+                return None
+            src[found:found + len(old)] = new
+            return len(new) - len(old), found + len(new)
         for h in hs:
-            old = []
-            new = []
+            tagged = []
             for l in h['lines']:
                 tag, body = (l[:1], l[1:]) if l else (' ', '')
-                if tag in (' ', '-'):
-                    old.append(body)
-                if tag in (' ', '+'):
-                    new.append(body)
-            # locate
+                tagged.append((tag if tag in (' ', '-', '+') else ' ', body))
             start = h['old_start'] - 1 + offset
-            found = None
-            for delta in sorted(range(-200, 201), key=abs):
-                s = start + delta
-                if s < 0 or s + len(old) > len(src):
-                    continue
-                if src[s:s + len(old)] == old:
-                    found = s
-                    break
-            if found is None:
-                raise ValueError(f'hunk does not apply to {path}')
-            src[found:found + len(old)] = new
-            offset += len(new) - len(old)
+            r = apply_block(tagged, start)
+            if r is None:
+                # like patch(1): retry with less context (the surroundings were edited since the patch was made): split the hunk
+                # into its change groups, each with at most two lines of context on either side
+                groups = []
+                i2 = 0
+                n2 = len(tagged)
+                while i2 < n2:
+                    if tagged[i2][0] == ' ':
+                        i2 += 1
+                        continue
+                    j2 = i2
+                    while j2 < n2 and tagged[j2][0] != ' ':
+                        j2 += 1
+                    lo = max(0, i2 - 2)
+                    while lo < i2 and tagged[lo][0] != ' ':
+                        lo += 1
+                    hi = min(n2, j2 + 2)
+                    groups.append((lo, i2, j2, hi))
+                    i2 = j2
+                ok_all = True
+                pos = start
+                for lo, a_, b_, hi in groups:
+                    done = None
+                    for ctx_lo, ctx_hi in ((lo, hi), (max(lo, a_ - 1), min(hi, b_ + 1)), (a_, min(hi, b_ + 1)), (max(lo, a_ - 1), b_), (a_, b_)):
+                        blk = tagged[ctx_lo:ctx_hi]
+                        if not any(t in (' ', '-') for t, _ in blk):
+                            continue
+                        done = apply_block(blk, pos)
+                        if done is not None:
+                            break
+                    if done is None:
+                        ok_all = False
+                        break
+                    offset += done[0]
+                    pos = done[1]
+                if not ok_all:
+                    raise ValueError(f'hunk does not apply to {path}')
+                continue
+            offset += r[0]
         out[path] = '\n'.join(src)
     return out
 
